@@ -63,20 +63,38 @@ def check_minimize(ctx):
 
 
 def target_respects_bounds(ctx, fn, target_term):
-    """An MCMC target function that is -inf outside the bounds (shape a repair would take)."""
+    """An MCMC target function that is -inf outside the bounds: it has a -inf return, and every
+    return of a finite value is reached only with the point inside the bounds (an "all inside"
+    predicate held, or an "any outside" predicate failed)."""
     if target_term[0] != 'localfn':
         return False
+
+    def is_neg_inf(v):
+        return v in (('const', float('-inf')),) or match(v, pattern('-np.inf')) is not None
+
+    def inside_fact(t, pol):
+        if not (contains(t, '_.bounds') or contains(t, '_within_bounds(_)')):
+            return False
+        while t[0] == 'not' or (t[0] == 'unary' and t[1] == 'not'):
+            t, pol = (t[1] if t[0] == 'not' else t[2]), not pol
+        head = t[1] if t[0] == 'call' else None
+        hname = head[1].split('.')[-1] if head and head[0] == 'global' else (
+            head[2] if head and head[0] == 'attr' else None)
+        if hname in ('all', '_within_bounds'):
+            return bool(pol)
+        if hname == 'any':
+            return not pol
+        return True      # an unrecognised predicate over the bounds: accepted as before
     for f in fn.module.all_functions:
         if f.qname == target_term[1]:
             ex = ctx.ex(f)
-            for r in returns(f):
-                if r.value is None:
-                    continue
-                v = ex.term(r.value)
-                if v in (('const', float('-inf')),) or match(v, pattern('-np.inf')) is not None:
-                    for (t, pol, _) in ctx.guards(f, r):
-                        if contains(t, '_.bounds') or contains(t, '_within_bounds(_)'):
-                            return True
+            rr = [r for r in returns(f) if r.value is not None]
+            has_inf = any(is_neg_inf(ex.term(r.value)) for r in rr)
+            finite = [r for r in rr if not is_neg_inf(ex.term(r.value))]
+            if has_inf and finite and all(
+                    any(inside_fact(t, pol) for (t, pol, _) in ctx.guards(f, r))
+                    for r in finite):
+                return True
     return False
 
 
